@@ -358,13 +358,31 @@ func ruleResetOnFailure(c *Ctx) {
 // far was followed by the success edge of a test of its error. "If the call
 // failed then X" is written  settled ∨ X : it also covers code that never
 // tests the error at all (the call stays outstanding).
-type settledEv struct{ *okEv }
+type settledEv struct {
+	*okEv
+	// sentinelOK: comparing the error with a sentinel (err == io.EOF, err == leveldb.ErrNotFound)
+	// counts as having dealt with it
+	sentinelOK bool
+	// logOK: an error that was found non-nil and then reported through the logger is handled
+	// (the repo's "log and carry on" idiom for best-effort steps)
+	logOK bool
+}
 
 func newSettledEv(fn *ssa.Function, name string, isCall func(*ssa.Call) bool) *settledEv {
-	return &settledEv{newOkEv(fn, name, isCall)}
+	return &settledEv{okEv: newOkEv(fn, name, isCall)}
 }
 func (s *settledEv) Name() string { return s.okEv.name + " not failed/untested" }
 func (s *settledEv) Instr(st uint8, ins ssa.Instruction) uint8 {
+	if s.logOK && st&bFAIL != 0 {
+		if c, ok := ins.(*ssa.Call); ok {
+			if f := c.Call.StaticCallee(); f != nil && f.Pkg != nil {
+				switch f.Pkg.Pkg.Path() {
+				case "github.com/pingcap/log", "go.uber.org/zap":
+					return st &^ (bPEND | bFAIL)
+				}
+			}
+		}
+	}
 	if c, ok := ins.(*ssa.Call); ok && s.isCall(c) {
 		if st&bPEND != 0 && st&bFAIL == 0 {
 			st |= bLOST // the previous call's error was never looked at (not even found non-nil, as in a retry) and is now out of reach
@@ -386,6 +404,23 @@ func (s *settledEv) Edge(st uint8, from *ssa.BasicBlock, succ int) uint8 {
 		return st
 	}
 	if iff, ok := from.Instrs[len(from.Instrs)-1].(*ssa.If); ok {
+		if s.sentinelOK {
+			if cond, _ := ifCond(iff, true); cond != nil {
+				if bo, isCmp := cond.(*ssa.BinOp); isCmp && (bo.Op == token.EQL || bo.Op == token.NEQ) {
+					isSentinel := func(v ssa.Value) bool {
+						u, ok := v.(*ssa.UnOp)
+						if !ok || u.Op != token.MUL {
+							return false
+						}
+						_, isG := u.X.(*ssa.Global)
+						return isG
+					}
+					if (s.carriers[bo.X] && isSentinel(bo.Y)) || (s.carriers[bo.Y] && isSentinel(bo.X)) {
+						return st &^ (bPEND | bFAIL)
+					}
+				}
+			}
+		}
 		if tested, isNil, ok := nilTest(iff, succ == 0); ok && s.carriers[tested] {
 			if isNil {
 				if s.sameCallFailed(st, tested) {
